@@ -8,6 +8,7 @@ import FlVerif.Op.Weighted
 import FlVerif.Op.Degree
 import FlVerif.Op.Activation
 import FlVerif.Op.Consequent
+import FlVerif.Op.Interp
 
 /-! # Code-shaped executable model of `Engine.process` for one input row (engine.py:409, rule.py, activation.py,
     term.py Activated/Aggregated, defuzzifier.py, variable.py)
@@ -117,19 +118,6 @@ structure RuleObs (α : Type) where
 
 /-! ## terms -/
 
-/-- `np.interp(x, xs, ys)` for increasing `xs`: clamped at both ends, linear in between; NaN propagates -/
-def interp : List (X α) → List (X α) → X α → X α
-  | [], _, _ => .nan
-  | _, [], _ => .nan
-  | [_], [y0], x => if X.isnan x then .nan else y0
-  | x0 :: x1 :: xs, y0 :: y1 :: ys, x =>
-    if X.isnan x then .nan
-    else if X.le x x0 then y0
-    else if X.lt x x1 then
-      X.add y0 (X.mul (X.sub x x0) (X.div (X.sub y1 y0) (X.sub x1 x0)))
-    else interp (x1 :: xs) (y1 :: ys) x
-  | _, _, _ => .nan
-
 def dot : List (X α) → List (X α) → X α
   | c :: cs, v :: vs => X.add (X.mul c v) (dot cs vs)
   | _, _ => .fin 0
@@ -143,7 +131,10 @@ def membership (F : Fn α) (inputs : List (X α)) : TermD α → X α → Option
     if cs.length = n then some (X.add (dot cs inputs) (.fin 0))
     else if cs.length = n + 1 then some (X.add (dot (cs.take n) inputs) (cs.getD n (.fin 0)))
     else none
-  | .discrete _ xs ys h, x => if xs.isEmpty then none else some (X.mul h (interp xs ys x))
+  | .discrete _ xs ys h, x => do
+    -- `Discrete.membership`: the component model `Op.discrete` of C03 (numpy.interp on the finite coordinate pairs)
+    let pts ← (xs.zip ys).mapM (fun (p : X α × X α) => do pure ((← p.1.toFin?), (← p.2.toFin?)))
+    if pts.isEmpty then none else some (Op.discrete pts h x)
 
 def tsukamoto (F : Fn α) : TermD α → X α → Option (X α)
   | .shape _ cls ps h, y => Gen.termTsukamoto F cls ps h y
